@@ -23,6 +23,7 @@ int verif_known(const char *key, bool cond); // enter a known-finding region whe
 void verif_known_end(void);
 void verif_observe_i64(const char *tag, int64_t v);
 void verif_observe_mpz(const char *tag, mpz_srcptr v);
+int64_t verif_concretize(int64_t v);                          // one path per feasible value; returns the concrete value
 void verif_note(const char *msg);
 int verif_is_symbolic(int64_t v);
 int verif_symbolic_exec(void); // 1 under symx, 0 in the native replay build
